@@ -730,3 +730,275 @@ def verdict_origins(body, variant, adt="deps::Dirtiness"):
         if kind == "agg" and rv.get("adt") == adt and rv.get("variant") == variant and bb in BA.of(body).live and not body.is_cleanup(bb):
             out.add(bb)
     return sorted(out)
+
+
+
+# ------------------------------------------------------------------------------------------------
+# appended (builder rules C04/C05/C11/C13, second robustness pass)
+
+def const_origins(body, o, depth=400):
+    """value_origins() of a call operand with constants kept: [(kind, bb, info)], kind 'const' (info = the constant,
+    bb = the block where the constant enters the flow - an assignment, an aggregate field, the argument copy of a
+    spliced helper - or None when the operand itself is the constant) next to value_origins' own kinds
+    ('agg', 'call', 'callpay', 'other').  Followed through whole-local moves, locals assigned on several paths,
+    enum payloads (`Settled(rv)` built in one place, matched in another) and `?`."""
+    c = op_const(o)
+    if c is not None:
+        return [("const", None, c)]
+    p0 = op_place(o)
+    if p0 is None or p0["p"]:
+        return [("other", None, None)]
+    ba = BA.of(body)
+    out = []
+    seen = set()
+    todo = [(p0["l"], ())]
+    n = 0
+    while todo and n < depth:
+        n += 1
+        l, pend = todo.pop()
+        if (l, pend) in seen:
+            continue
+        seen.add((l, pend))
+        ds = [d for d in ba.defs.get(l, []) if d[0] in ("stmt", "call", "yield")]
+        if not ds:
+            out.append(("other", None, None))
+        for d in ds:
+            if d[0] == "call":
+                t = d[2]
+                if pend and pend[-1][0] == "Continue" and any(re.fullmatch(r"(<.* as )?core::ops::try_trait::Try>?::branch", q) for q in callee_paths(t)):
+                    a = op_place(t["args"][0])
+                    ty = (t.get("arg_tys") or [""])[0]
+                    if a is not None and not a["p"]:
+                        todo.append((a["l"], pend[:-1] + (("Ok" if ty.startswith("core::result::Result") else "Some", pend[-1][1]),)))
+                        continue
+                out.append(("call", d[1], t) if not pend else ("callpay", d[1], t))
+                continue
+            if d[0] == "yield":
+                out.append(("other", d[1], None))
+                continue
+            rv = d[3]
+            if rv["k"] == "use":
+                cc = op_const(rv["op"])
+                if cc is not None:
+                    out.append(("const", d[1], cc) if not pend else ("other", d[1], None))
+                    continue
+                p = op_place(rv["op"])
+                if p is None:
+                    out.append(("other", d[1], None))
+                    continue
+                proj = p["p"]
+                ok = True
+                i = 0
+                add = []
+                while i < len(proj):
+                    if proj[i].startswith("as:") and i + 1 < len(proj) and proj[i + 1].startswith("f:"):
+                        add.append((proj[i][3:], proj[i + 1][2:].rsplit(".", 1)[-1]))
+                        i += 2
+                    else:
+                        ok = False
+                        break
+                if not ok:
+                    out.append(("other", d[1], None))
+                    continue
+                todo.append((p["l"], pend + tuple(reversed(add))))
+            elif rv["k"] == "agg" and rv.get("agg") == "adt":
+                if not pend:
+                    out.append(("agg", d[1], rv))
+                else:
+                    var, fld = pend[-1]
+                    if rv.get("variant") != var:
+                        continue
+                    for f, fo in zip(rv.get("fields", []), rv["ops"]):
+                        if f == fld:
+                            cc = op_const(fo)
+                            q = op_place(fo)
+                            if cc is not None and len(pend) == 1:
+                                out.append(("const", d[1], cc))
+                            elif q is not None and not q["p"]:
+                                todo.append((q["l"], pend[:-1]))
+                            else:
+                                out.append(("other", d[1], None))
+            else:
+                out.append(("other", d[1], None))
+    return out
+
+
+def const_int_entry_blocks(body, call_bb, argno, value):
+    """Blocks at which the integer constant `value` is chosen as (a possible) argument `argno` of the call at
+    `call_bb`: the call block itself for a literal operand, else where the constant enters the value's flow."""
+    out = []
+    for kind, bb, c in const_origins(body, body.blocks[call_bb]["term"]["args"][argno]):
+        if kind == "const" and c.get("int") == value:
+            out.append(call_bb if bb is None else bb)
+    return out
+
+
+def role_ftaint(body, roles, through=None):
+    """role_taint(mode='direct') computed field-sensitively (core.ftaint): locals of `body` that are direct aliases
+    of the parameter roles, also when the callee first packs its parameters into a struct of its own and works on
+    the struct's fields (through `self` of spliced methods) - one field does not stand for its siblings."""
+    if not roles:
+        return set()
+    from core import ftaint
+    return ftaint(body, seeds={n for (n, pref) in roles if not pref}, seed_paths=[(n, tuple(pref)) for (n, pref) in roles if pref], through=through)
+
+
+def mpt_fl(ctx, rid, key, body, A, B, M, ok_detail, bad_detail, incl=True, where_bb=None, require=True, cut_edges=()):
+    """mpt_f() on core.FAL (feasible paths with liveness-pruned states: exact on the large builder bodies, where
+    core.FA exceeds its state cap and falls back to plain block paths)."""
+    from core import FAL
+    fa = FAL.of(body)
+    A, B, M = list(A), list(B), set(M)
+    if not A or not B:
+        return ctx.ob(rid, key, not require, where=body.span, detail="anchor missing (from=%d to=%d via=%d): %s" % (len(A), len(B), len(M), bad_detail))
+    p = fa.path(A, B, avoid=frozenset(M), cut_edges=frozenset(cut_edges), incl=incl)
+    ok = p is None and bool(M)
+    return ctx.ob(rid, key, ok, where=ctx.where(body, where_bb if where_bb is not None else (p[-1] if p else A[0])),
+                  detail=ok_detail if ok else bad_detail, witness={"path": p[:25] if p else None})
+
+
+def not_reach_fl(ctx, rid, key, body, A, B, ok_detail, bad_detail, avoid=(), incl=True, cut_edges=()):
+    """not_reach_f() on core.FAL."""
+    from core import FAL
+    fa = FAL.of(body)
+    p = fa.path(list(A), list(B), avoid=frozenset(avoid), cut_edges=frozenset(cut_edges), incl=incl) if A and B else None
+    return ctx.ob(rid, key, p is None, where=ctx.where(body, p[-1]) if p else body.span,
+                  detail=ok_detail if p is None else bad_detail, witness={"path": p[:25] if p else None})
+
+
+class BoolFacts:
+    """What is known when a boolean has a given value / a branch edge is taken, in terms of *atoms*:
+        ("call", bb)        the bool result of the call in block bb
+        ("place", bb, idx)  the bool read from a projected place (a field, a captured variable) by statement idx of bb
+    each with the polarity it must have had. Follows copies, `!`, `&` / `|` on bools, constants, and locals that are
+    assigned on several paths (the materialised form of `a && !b`, of a helper `fn must_stop(&self) -> bool` spliced
+    in place, of `let stop = ..; if stop`): a definition that cannot produce the wanted value is ruled out, and a
+    definition contributes what is known on reaching its block (the branch edges that dominate it). Facts are
+    necessary conditions (an intersection over the definitions that remain), never guesses; nothing known = {}.
+    A fact set is a dict atom -> (polarity, provenance): provenance = the switch blocks whose outcome the fact rests on."""
+
+    def __init__(self, body):
+        self.b = body
+        self.ba = BA.of(body)
+        self._blk = {}
+        self._busy = set()
+        self._sw = [i for i in sorted(self.ba.live) if body.blocks[i]["term"]["t"] == "switch" and body.blocks[i]["term"]["discr_ty"] == "bool"
+                    and not body.is_cleanup(i)]
+
+    @staticmethod
+    def _merge(a, b):
+        """conjunction of two fact sets; None if contradictory"""
+        if a is None or b is None:
+            return None
+        out = dict(a)
+        for k, (v, pr) in b.items():
+            if k in out:
+                if out[k][0] != v:
+                    return None
+                out[k] = (v, out[k][1] | pr)
+            else:
+                out[k] = (v, pr)
+        return out
+
+    @staticmethod
+    def _with(f, sw):
+        return {k: (v, pr | frozenset([sw])) for k, (v, pr) in f.items()}
+
+    def targets(self, sw):
+        """(true_target, false_target) of the raw bool switch."""
+        t = self.b.blocks[sw]["term"]
+        f_t = None
+        for v, tg in t["arms"]:
+            if v == 0:
+                f_t = tg
+        return t["otherwise"], f_t
+
+    def block_facts(self, bb):
+        """Facts that hold whenever block bb is entered: the outcomes of the bool switches one of whose edges lies
+        on every path to bb (and is not bypassed by a cycle through bb)."""
+        if bb in self._blk:
+            return self._blk[bb]
+        if bb in self._busy:
+            return {}
+        self._busy.add(bb)
+        acc = {}
+        for sw in self._sw:
+            if sw == bb or not self.ba.dominates(sw, bb):
+                continue
+            t_t, f_t = self.targets(sw)
+            if f_t is None or t_t == f_t:
+                continue
+            for tg, want in ((t_t, True), (f_t, False)):
+                if self.ba.edge_dominates((sw, tg), bb) and self.ba.path([bb], [bb], cut_edges=frozenset([(sw, tg)])) is None:
+                    vf = self.value_facts(self.b.blocks[sw]["term"]["discr"], want)
+                    if vf is not None:
+                        m = self._merge(acc, self._with(vf, sw))
+                        if m is not None:
+                            acc = m
+        self._busy.discard(bb)
+        self._blk[bb] = acc
+        return acc
+
+    def value_facts(self, o, want, depth=0):
+        """Facts implied by operand `o` (a bool) having the value `want`; None when it cannot have it."""
+        c = op_const(o)
+        if c is not None:
+            if "bool" in c:
+                return {} if c["bool"] == want else None
+            return {}
+        p = op_place(o)
+        if p is None or p["p"] or depth > 16:
+            return {}
+        alld = self.ba.defs.get(p["l"], [])
+        ds = [d for d in alld if d[0] in ("stmt", "call", "yield")]
+        if not ds or len(ds) != len(alld):
+            return {}
+        results = []
+        for d in ds:
+            if d[0] == "call":
+                f = {("call", d[1]): (want, frozenset())}
+            elif d[0] == "yield":
+                f = {}
+            else:
+                rv = d[3]
+                k = rv["k"]
+                if k == "use":
+                    q = op_place(rv["op"])
+                    if q is not None and q["p"]:
+                        f = {("place", d[1], d[2]): (want, frozenset())}
+                    else:
+                        f = self.value_facts(rv["op"], want, depth + 1)
+                elif k == "unop" and rv["op"] == "Not":
+                    f = self.value_facts(rv["a"], not want, depth + 1)
+                elif k == "binop" and rv["op"] in ("BitAnd", "BitOr"):
+                    if (rv["op"] == "BitAnd") == want:
+                        f = self._merge(self.value_facts(rv["a"], want, depth + 1), self.value_facts(rv["b"], want, depth + 1))
+                    else:
+                        f = {}
+                else:
+                    f = {}
+            if f is None:
+                continue
+            f = self._merge(f, self.block_facts(d[1]))
+            if f is None:
+                continue
+            results.append(f)
+        if not results:
+            return None
+        facts = dict(results[0])
+        for f2 in results[1:]:
+            facts = {k: (v, pr | f2[k][1]) for k, (v, pr) in facts.items() if k in f2 and f2[k][0] == v}
+        return facts
+
+    def edge_facts(self, sw, tg):
+        """Facts that hold when edge sw -> tg of a bool switch is taken (None: the edge cannot be taken)."""
+        t_t, f_t = self.targets(sw)
+        if tg not in (t_t, f_t) or t_t == f_t:
+            return {}
+        vf = self.value_facts(self.b.blocks[sw]["term"]["discr"], tg == t_t)
+        if vf is None:
+            return None
+        return self._merge(self._with(vf, sw), self.block_facts(sw))
+
+    def switches(self):
+        return list(self._sw)
